@@ -325,6 +325,20 @@ func runShort(c ShortCase) vrt.Verdict {
 		case f.Short != "":
 			lab["short-unaliased"] = true
 		}
+		if hasCopy {
+			anyEmpty := false
+			for i := range f.Supply {
+				anyEmpty = anyEmpty || isEmptyCollection(makeVal(f.Type, f.Seeds[i]))
+			}
+			switch {
+			case anyEmpty && len(f.Supply) == 2:
+				lab["empty-collection:both"] = true
+			case anyEmpty && (f.Supply[0] == "long" || f.Supply[0] == "short"):
+				lab["empty-collection:primary"] = true
+			case anyEmpty:
+				lab["empty-collection:alias"] = true
+			}
+		}
 		for _, how := range f.Supply {
 			lab["via:"+how] = true
 			if hasCopy && (how == "short" || how == "ashort") {
